@@ -44,12 +44,17 @@ def unary (F : Fmt) (p : Model.Path) (f : String) (x : Nat) : Option (String × 
 def binary (F : Fmt) (p : Model.Path) (f : String) (x y : Nat) : Option (String × String) :=
   match f with
   | "copysign" => some (fb F (Model.copysign F p x y), fb F (F.copysign x y))
-  | "fmin" => some (fb F (Model.fmin F x y), if F.zerosDiffer x y then "*" else fb F (F.fmin x y))
-  | "fmax" => some (fb F (Model.fmax F x y), if F.zerosDiffer x y then "*" else fb F (F.fmax x y))
+  | "fmin" => some (fb F (Model.fmin F x y), if F.zerosDiffer x y || F.isSNaN x || F.isSNaN y then "*" else fb F (F.fmin x y))
+  | "fmax" => some (fb F (Model.fmax F x y), if F.zerosDiffer x y || F.isSNaN x || F.isSNaN y then "*" else fb F (F.fmax x y))
   | "fdim" => some (fb F (Model.fdim F x y), fb F (F.fdim x y))
   -- run time: the libm builtin; constant evaluation: gcem's series, not modelled (known finding)
   | "fmod" => some (if p == .rt then fb F (F.fmod x y) else "*", fb F (F.fmod x y))
-  | "remainder" => some (if p == .rt then fb F (F.remainder x y) else "*", fb F (F.remainder x y))
+  | "remainder" =>
+    -- glibc 2.36 returns a zero of the wrong sign for some subnormal divisors (IEC 60559: the sign of x); the sign
+    -- of a zero remainder of a non-zero x is therefore not compared
+    let r := F.remainder x y
+    let s := if F.isZero r && !F.isZero x then "*" else fb F r
+    some (if p == .rt then s else "*", s)
   | "nextafter" => some (fb F (Model.nextafter F x y), fb F (F.nextafter x y))
   | _ => none
 
